@@ -8,7 +8,7 @@ use crate::sem_diff::{enum_module, flat_module, raise_module, struct_module};
 use crate::sem_struct::{Flavour, MI};
 use std::sync::Mutex;
 
-const MENU_C07: &[MI] = &[MI::Plain, MI::Rename, MI::ExprTilde, MI::Ghost, MI::RenameExpr, MI::AtPair, MI::AsType, MI::AsTypeRename, MI::GhostNoDefault];
+const MENU_C07: &[MI] = &[MI::Plain, MI::Rename, MI::ExprTilde, MI::Ghost, MI::RenameExpr, MI::AtPair, MI::AsType, MI::AsTypeRename, MI::GhostNoDefault, MI::FalliblePair];
 
 fn struct_opts(tier: &str) -> (crate::sem_struct::Opts, Option<usize>) {
     if tier == "quick" {
